@@ -245,7 +245,14 @@ def check(ctx):
     cdefs = df.all_defs(cf)
     comp = [c for c in calls_in(cf) if call_name(c) == "compile"]
     parse = [c for c in calls_in(cf) if call_name(c) == "self.parse"]
-    ok = bool(comp) and bool(parse) and all(unparse(c.args[0]) == "tree" or isinstance(const_value(c.args[0]), str) for c in comp) and any(unparse(c.args[0]) == "tree" for c in comp) and all(unparse(p.args[0]) == "input" for p in parse) and not any(isinstance(a, (ast.For, ast.While)) for c in comp + parse for a in ancestors(c))
+    inp = cf.args.args[1].arg
+
+    def from_parse(e):
+        """e is a local whose every definition is the result of self.parse(...)"""
+        ds = cdefs.get(e.id, []) if isinstance(e, ast.Name) else []
+        return bool(ds) and all(d.kind == "assign" and any(d.value is p_ for p_ in parse) for d in ds)
+
+    ok = bool(comp) and bool(parse) and all(from_parse(c.args[0]) or isinstance(const_value(c.args[0]), str) for c in comp) and any(from_parse(c.args[0]) for c in comp) and all(unparse(p.args[0]) == inp for p in parse) and not any(isinstance(a, (ast.For, ast.While)) for c in comp + parse for a in ancestors(c))
     ctx.ob("R4", f"{EX}:Execer.compile", "one parse of the complete input feeds one builtin compile()", ok, key="compile|shape")
     del cdefs
     bs = ctx.repo.module(BS)
